@@ -346,7 +346,11 @@ def fork_mode_rule(ctx, prog):
             continue
         n += 1
         # library-owned descriptors that are neither parent ends of the handle (closed by the child's close-all loop) ...
+        # ... except an end whose number this path has established to be 0, 1 or 2: it is the child's standard stream itself
+        low = {t for (t, o, c) in st.mon.get("fdrange", frozenset()) if (o == "<=" and c <= 2) or (o == "<" and c <= 3)}
         for k, v in st.res.items():
+            if k in low:
+                continue
             if k[0] == "fd" and v[0] == "open" and v[2] in ("file",):
                 bad.add(str(k))
             if k[0] == "fd" and v[0] == "open" and v[2] in ("pipe-read", "pipe-write") and k in st.mon.get("child_ends", frozenset()):
